@@ -316,12 +316,19 @@ impl World {
 						lock: height.saturating_sub((rt.fee % 3) as u64),
 						excess_tag: 0,
 					}],
-					// 4: height-locked one block in the future (must be refused)
+					// 4: height-locked in the future (must be refused): one block ahead in half of the cases,
+					// otherwise two blocks, or far beyond anything a chain reaches (the ends of u32 / i64 / u64)
 					4 => vec![KernelSpec {
 						kind: KKind::HeightLocked,
 						fee: f,
 						shift: 0,
-						lock: height + 1,
+						lock: match (rt.fee / 4) % 8 {
+							0..=3 => height + 1,
+							4 => height + 2,
+							5 => height + (1u64 << 32),
+							6 => height + (1u64 << 63) - 1 + (rt.fee as u64 / 32 % 2),
+							_ => u64::MAX - (rt.fee as u64 / 32 % 2),
+						},
 						excess_tag: 0,
 					}],
 					// 5..=10: NRD kernels sharing their excess through a tag (two tags, relative heights 1..3)
